@@ -8,6 +8,7 @@ package main
 
 import (
 	"bytes"
+	"strings"
 	"encoding/json"
 	"fmt"
 	"os"
@@ -154,7 +155,7 @@ func (e *env) buildSet(g *rng.R, at *chaingen.Node, kind string) ([]types.V2Tran
 		for _, k := range c.Kinds {
 			e.st["set-kind:"+k]++
 		}
-	case "block-parent":
+	case "block-parent", "block-parent-child-only":
 		// a transaction P of a child block of `at` together with a new child spending one of
 		// P's outputs (siacoin or siafund) ephemerally: rebasing past that block confirms P and
 		// must give the child's input the created element
@@ -215,6 +216,10 @@ func (e *env) buildSet(g *rng.R, at *chaingen.Node, kind string) ([]types.V2Tran
 			return nil, nil
 		}
 		set = []types.V2Transaction{p, child}
+		if kind == "block-parent-child-only" {
+			// the creator of the ephemeral input is not part of the set that is rebased
+			set = []types.V2Transaction{child}
+		}
 	case "builder":
 		b := w.Env.NewBuilder(chaingen.Blocks(w.T.Path(at)))
 		for i := 0; i < 3; i++ {
@@ -320,6 +325,7 @@ func (e *env) judge(what string, orig, out []types.V2Transaction, err error, ex 
 		return
 	}
 	e.st["rebase-ok"]++
+	e.validAtTarget(what, out, toN)
 	if len(got) < len(orig) {
 		e.st["rebase-dropped-confirmed"]++
 	}
@@ -359,6 +365,91 @@ func (e *env) judge(what string, orig, out []types.V2Transaction, err error, ex 
 			}
 		}
 	}
+}
+
+// ledgerCheck: every input of a set that is claimed valid for node n equals the independent
+// ledger's element at n (leaf index and proof); an input still marked ephemeral must not be an
+// element of n's chain unless an earlier member of the set creates it.
+func (e *env) ledgerCheck(what string, set []types.V2Transaction, n *chaingen.Node) bool {
+	all := e.w.Info(n).All
+	made := map[string]bool{}
+	for i := range set {
+		for _, el := range elems(&set[i]) {
+			want, known := all[el.key]
+			if el.se.LeafIndex == types.UnassignedLeafIndex {
+				if known && !made[el.key] && el.sc {
+					e.report("c13-rebase-left-confirmed-input-ephemeral", fmt.Sprintf("%s: input %s is returned as ephemeral although it is leaf %d of the target's accumulator and no earlier member creates it", what, el.key, want.LeafIndex))
+					return false
+				}
+				continue
+			}
+			if !known || el.se.LeafIndex != want.LeafIndex || !sameProof(el.se.MerkleProof, want.MerkleProof) {
+				e.report("c13-rebase-wrong-element", fmt.Sprintf("%s: input %s (leaf %d) is not the ledger's element at the target (known %v, leaf %d)", what, el.key, el.se.LeafIndex, known, want.LeafIndex))
+				return false
+			}
+			e.st["inputs-equal-to-ledger"]++
+		}
+		a := e.w.AbsV2(set[i], poolsim.Meta{POK: true})
+		for _, o := range a.Outs {
+			made[o.Key] = true
+		}
+	}
+	return true
+}
+
+// validAtTarget: the rebased set must validate in order on the generator's state of the target,
+// unless the tree itself explains why it cannot (an input spent or never created on the target's
+// branch, a creator that is neither in the set nor confirmed, a height window that ended).
+func (e *env) validAtTarget(what string, out []types.V2Transaction, toN *chaingen.Node) {
+	if len(out) == 0 {
+		return
+	}
+	pos, err := e.w.ValidatePool(toN, nil, out)
+	if err == nil {
+		e.st["rebased-sets-validated-at-target"]++
+		return
+	}
+	in := e.w.Info(toN)
+	unspent := map[string]bool{}
+	for _, le := range in.LedgerEntries() {
+		unspent[le.Key] = true
+	}
+	made := map[string]bool{}
+	for i := range out {
+		a := e.w.AbsV2(out[i], poolsim.Meta{POK: true})
+		if toN.Height+1 < a.Lo || toN.Height+1 > a.Hi {
+			e.st["rebased-set-invalid:height-window"]++
+			return
+		}
+		for _, ai := range a.Ins {
+			if ai.Leaf == types.UnassignedLeafIndex {
+				if !made[ai.Key] {
+					// ephemeral and not created by an earlier member: legitimate only if nothing on the
+					// target's chain created it either (then the caller's set was incomplete)
+					if _, known := in.All[ai.Key]; !known {
+						e.st["rebased-set-invalid:creator-missing"]++
+						return
+					}
+					e.report("c13-rebase-left-confirmed-input-ephemeral", fmt.Sprintf("%s: input %s is still marked ephemeral although the target's chain contains the element (leaf %d); the set does not validate at the target: %v", what, ai.Key, in.All[ai.Key].LeafIndex, err))
+					return
+				}
+				continue
+			}
+			if ai.Role != 2 && !unspent[ai.Key] {
+				e.st["rebased-set-invalid:input-spent-at-target"]++
+				return
+			}
+		}
+		for _, o := range a.Outs {
+			made[o.Key] = true
+		}
+	}
+	// revisions of a contract that moved on, proofs for another branch's window etc. are decided by core
+	if strings.Contains(err.Error(), "revision") || strings.Contains(err.Error(), "proof") || strings.Contains(err.Error(), "contract") {
+		e.st["rebased-set-invalid:contract-state"]++
+		return
+	}
+	e.report("c13-rebased-set-not-valid-at-target", fmt.Sprintf("%s: every input is unspent at the target and inside its height window, yet the returned set does not validate in order at the target (position %d): %v", what, pos, err))
 }
 
 func runCase(cs poolsim.Case, coqWanted bool) (coqOut string, failOut *failure, stOut stats, rOut *poolsim.Runner) {
@@ -606,6 +697,48 @@ func runCase(cs poolsim.Case, coqWanted bool) (coqOut string, failOut *failure, 
 					ins[0], ins[1] = ins[1], ins[0]
 				}
 				txn = w.Env.V2SpendMulti(tip.FullState, ins, one)
+			case "parent-mined":
+				// parent pooled at the basis, child built on its ephemeral output, parent mined, then the
+				// set for the child alone is requested with the old basis
+				free := w.Spendable(w.Info(tip), types.Siacoins(200))
+				used := map[types.SiacoinOutputID]bool{}
+				for _, x := range p2 {
+					for _, in := range x.SiacoinInputs {
+						used[in.Parent.ID] = true
+					}
+				}
+				for _, x := range p1 {
+					for _, in := range x.SiacoinInputs {
+						used[in.ParentID] = true
+					}
+				}
+				var in0 *types.SiacoinElement
+				for i := range free {
+					if !used[free[i].ID] {
+						in0 = &free[i]
+						break
+					}
+				}
+				if in0 == nil {
+					continue
+				}
+				par := w.Env.V2Spend(tip.FullState, *in0, one, types.Siacoins(50), w.Env.Addr, 0, 7)
+				if _, err, _ := r.Submit2(basis, []types.V2Transaction{par}, []poolsim.Meta{m}); err != nil {
+					continue
+				}
+				txn = w.Env.V2Spend(tip.FullState, par.EphemeralSiacoinOutput(g.Intn(2)), one, one, w.Env.Payees[0], 0, 8)
+				mined := 0
+				for k := 0; k < 1+g.Intn(2); k++ {
+					if b, ok := r.MineOnly(); ok && r.Adopt(b) {
+						mined++
+					}
+				}
+				if mined == 0 {
+					continue
+				}
+				p1, p2 = r.Pool()
+				tip = r.Tip
+				st["txset-parent-mined-blocks"] += mined
 			case "stale-child":
 				// a transaction built at an earlier block with a confirmed and a pooled parent
 				anc := tip.Parent
@@ -699,6 +832,9 @@ func runCase(cs poolsim.Case, coqWanted bool) (coqOut string, failOut *failure, 
 			}
 			if !okMembers {
 				report("c13-set-wrong-members", fmt.Sprintf("%s returned %d parents; the pooled ancestors are %d (an unrelated or missing transaction)", what, len(set)-1, len(anc)))
+				continue
+			}
+			if !e.ledgerCheck(what, set, tip) {
 				continue
 			}
 			if stp.Flavor != "child-of-v1" {
@@ -844,7 +980,7 @@ func runCase(cs poolsim.Case, coqWanted bool) (coqOut string, failOut *failure, 
 	return coq, fail, st, r
 }
 
-var setKinds = []string{"fresh", "eph-chain", "eph-chain", "mixed", "block-child", "block-child", "block-parent", "block-parent", "builder"}
+var setKinds = []string{"fresh", "eph-chain", "eph-chain", "mixed", "block-child", "block-child", "block-parent", "block-parent-child-only", "block-parent-child-only", "builder"}
 var corruptions = []string{"proof", "leaf", "unknown-basis", "basis-height"}
 
 // genPlan: submit the whole tree (every branch), rebase sets between every pair of known
@@ -886,12 +1022,12 @@ func genPlan(g *rng.R, t *chaingen.Tree, pairsBudget int) []poolsim.Step {
 		plan = append(plan, poolsim.Step{Kind: "submit", Flavor: subs[g.Intn(len(subs))], Seed: g.U64()})
 		switch g.Intn(3) {
 		case 0:
-			plan = append(plan, poolsim.Step{Kind: "txset", Flavor: []string{"pooled", "new-child", "child-of-v1", "stale-child", "diamond"}[g.Intn(5)], Seed: g.U64()})
+			plan = append(plan, poolsim.Step{Kind: "txset", Flavor: []string{"pooled", "new-child", "child-of-v1", "stale-child", "diamond", "parent-mined"}[g.Intn(6)], Seed: g.U64()})
 		case 1:
 			plan = append(plan, poolsim.Step{Kind: "parents", Flavor: []string{"pooled", "new-child", "child-of-v2", "diamond"}[g.Intn(4)], Seed: g.U64()})
 		}
 	}
-	for _, f := range []string{"pooled", "new-child", "child-of-v1", "stale-child", "diamond"} {
+	for _, f := range []string{"pooled", "new-child", "child-of-v1", "stale-child", "diamond", "parent-mined", "parent-mined"} {
 		plan = append(plan, poolsim.Step{Kind: "txset", Flavor: f, Seed: g.U64()})
 	}
 	for _, f := range []string{"pooled", "new-child", "child-of-v2", "diamond"} {
